@@ -402,6 +402,11 @@ func Check18(c *Case, env *Env) []verdict {
 			allWell = false
 		}
 	}
+	if len(mp.GetGraph().GetSparseInitializer()) > 0 {
+		// the pinned tree ignores sparse initializers; a tree that decodes them may refuse a damaged one before it
+		// looks at the opset, just as with dense initializers
+		allWell = false
+	}
 	mx := maxOpset(mp)
 	if !implementedOpsets[mx] {
 		if st != nil {
